@@ -106,7 +106,8 @@ class RegexFacade:
         self.entries = []   # (fn, timeout-as-seen)
         self.real = {}
         self.compiles = 0
-        self.real_timeout = 0.02
+        self.real_timeout = 5.0       # never reached: the real engine only sees subject_cap characters
+        self.subject_cap = 14
 
     def reset(self, mode='pass'):
         self.mode = mode
@@ -139,6 +140,10 @@ class _PatternProxy:
                                  len(subj) if isinstance(subj, str) else 0)
                     k = dict(k)
                     k['timeout'] = REGEX.real_timeout
+                    a = list(a)
+                    si = 1 if name in ('sub', 'subn', 'subf', 'subfn') else 0
+                    if len(a) > si and isinstance(a[si], str):
+                        a[si] = a[si][:REGEX.subject_cap]
                 else:
                     REGEX.entries.append(('pattern.' + name, k.get('timeout'), 0, 0))
                 return real(*a, **k)
@@ -164,6 +169,12 @@ def _install_regex():
                 REGEX.charge(_name, k.get('timeout'), plen, len(subj) if isinstance(subj, str) else 0)
                 k = dict(k)
                 k['timeout'] = REGEX.real_timeout
+                # the real engine only sees a short prefix of the subject: always fast, so no verdict or event ever
+                # depends on a real clock (results stay realistic for short subjects, the common case)
+                a = list(a)
+                si = 2 if _name in ('sub', 'subn', 'subf', 'subfn') else 1
+                if len(a) > si and isinstance(a[si], str):
+                    a[si] = a[si][:REGEX.subject_cap]
             else:
                 REGEX.entries.append((_name, k.get('timeout'), 0, 0))
             return _real(*a, **k)
